@@ -1790,6 +1790,7 @@ int tls_recv(TLS_CONNECT *conn, uint8_t *out, size_t outlen, size_t *recvlen)
 		case TLS_record_application_data:
 			break;
 		case TLS_record_change_cipher_spec:
+			conn->datalen = 0; // not application data: must not be returned by the next call
 			error_print();
 			return -1;
 		case TLS_record_alert:
@@ -1798,6 +1799,7 @@ int tls_recv(TLS_CONNECT *conn, uint8_t *out, size_t outlen, size_t *recvlen)
 			int level;
 			int alert;
 			tls_record_get_alert(conn->databuf, &level, &alert);
+			conn->datalen = 0; // not application data: must not be returned by the next call
 			if (alert == TLS_alert_close_notify) {
 				tls_trace("recv Alert.close_notify\n");
 				return 0;
@@ -1806,6 +1808,7 @@ int tls_recv(TLS_CONNECT *conn, uint8_t *out, size_t outlen, size_t *recvlen)
 			return -1;
 			}
 		default:
+			conn->datalen = 0; // not application data: must not be returned by the next call
 			error_print();
 			return -1;
 		}
